@@ -405,6 +405,9 @@ def op_setitem(st, op, info):
                 shp = tshape
         nd = int_values(spec["nd"].get("vseed", 0), shp)
         dt = spec["nd"].get("dtype", "float64")
+        if spec["nd"].get("frac") and dt == "float64":
+            nd = np.asarray(nd + 0.5)  # not integer valued: would not survive a cast into an integer typed buffer
+            st.probe("assigned_ndarray_fractional")
         if dt != "float64":
             nd = (nd > 2) if dt == "bool" else nd.astype(dt)
             st.probe("assigned_ndarray_dtype_" + dt)
@@ -831,6 +834,14 @@ def op_stock_convert(st, op, info):
         kw = {}
         if target is not SimpleFlowDrivenStock and not hasattr(stock, "lifetime_model"):
             kw["lifetime_model"] = FixedLifetime
+        if op.get("same_class_bad_kw"):
+            # conversion to the stock's own class, handing in an inflow array over other dimensions: must not produce a stock
+            target = type(stock)
+            dl_ = list(stock.dims)
+            bad = DimensionSet(dim_list=dl_[::-1]) if len(dl_) >= 2 else DimensionSet(dim_list=dl_ + [Dimension(name="Foreign", letter="Z", items=["z"])])
+            kw = {"inflow": StockArray(dims=bad, values=np.zeros(bad.shape))}
+            info.must_raise = "stock-dims-rejected"
+            st.fault("to_stock_type_with_foreign_array")
         r = call(st, op, lambda: stock.to_stock_type(target, **kw), info)
     else:
         info.kind = "stock_convert:stock_stack"
@@ -845,6 +856,47 @@ def op_stock_convert(st, op, info):
         info.stock = r
 
 
-HANDLERS = {"stock_poison": op_stock_poison, "stock_convert": op_stock_convert, "system": op_system, "stock_compute": op_stock_compute, "lifetime": op_lifetime, "mk": op_mk, "arith": op_arith, "reduce": op_reduce, "slice": op_slice, "setitem": op_setitem,
+def op_poke(st, op, info):
+    """the user writes a NaN straight into .values of a pooled array (documented direct access)"""
+    a = st.slot(op["s"])
+    if a is None or not isinstance(a.values, np.ndarray) or a.values.size == 0 or a.values.dtype.kind != "f":
+        return
+    info.kind = "poke_nan"
+    info.inplace = True
+    info.target = a
+    a.values[np.unravel_index(op.get("entry", 0) % a.values.size, a.values.shape) if a.values.shape else ()] = np.nan
+    info.outcome = "ret"
+
+
+def op_plot(st, op, info):
+    """draw a pooled array with one of the array plotters (C15: 'export' operations do not change their inputs)"""
+    import matplotlib
+    matplotlib.use("Agg")
+    from matplotlib import pyplot as plt
+    from flodym.export.array_plotter import PyplotArrayPlotter, PlotlyArrayPlotter
+    cands = [a for a in st.pool if isinstance(a.values, np.ndarray) and 1 <= a.values.ndim <= 3 and a.values.dtype.kind == "f"]
+    if not cands:
+        return
+    a = cands[op["s"] % len(cands)]
+    dims = list(a.dims)
+    info.kind = "plot:" + op.get("chart", "line")
+    info.inputs = [a]
+    kw = {"array": a, "intra_line_dim": dims[0].name if op.get("by_name") else dims[0].letter, "chart_type": op.get("chart", "line")}
+    if len(dims) >= 2:
+        kw["linecolor_dim"] = dims[1].name
+    if len(dims) >= 3:
+        kw["subplot_dim"] = dims[2].letter
+    cls = PlotlyArrayPlotter if op.get("backend") == "plotly" else PyplotArrayPlotter
+
+    def thunk():
+        try:
+            return cls(**kw).plot()
+        finally:
+            plt.close("all")
+    call(st, op, thunk, info)
+    st.probe("plot_" + info.outcome)
+
+
+HANDLERS = {"plot": op_plot, "poke": op_poke, "stock_poison": op_stock_poison, "stock_convert": op_stock_convert, "system": op_system, "stock_compute": op_stock_compute, "lifetime": op_lifetime, "mk": op_mk, "arith": op_arith, "reduce": op_reduce, "slice": op_slice, "setitem": op_setitem,
             "set_values": op_set_values, "inplace_unary": op_inplace_unary, "df": op_df, "split": op_split_stack,
             "stack": op_split_stack, "stock": op_stock}
